@@ -13,12 +13,14 @@ rnd = "1"
 if "--round" in sys.argv:
     rnd = sys.argv[sys.argv.index("--round") + 1]
 head = subprocess.check_output(["git", "-C", "/repo", "rev-parse", "--short", "HEAD"], text=True).strip()
+if "--head" in sys.argv:
+    head = sys.argv[sys.argv.index("--head") + 1]
 good = {}
 for ln in open(conf):
     k, _, rest = ln.strip().partition(" ")
     good[k] = rest
 mat = {}
-for ln in open(matrix):
+for ln in (open(matrix) if os.path.exists(matrix) else []):
     m = re.match(r"(\S+) (\S+)=(\d+)(?: by=(\S+))?", ln.strip())
     if m:
         mat.setdefault(m.group(1), []).append((m.group(4) or m.group(1).split("/")[0], int(m.group(3))))
@@ -56,8 +58,8 @@ for k, rest in sorted(good.items()):
                    "go test -vet=off -count=1 -timeout 25m . (unedited suite); demo test with the change; demo test without it",
             "result": rest,
         },
-        "detection": [{"check": f"./check {c} quick", "violations": v, "caught": v > 0} for c, v in mat.get(k, [])],
+        "detection": "see detection.json next to this file (written by tools/seed_matrix.py)",
         "how_to_rerun": f"tools/mutrun.sh seeded/{name}/patch.diff {pid} quick   (patched scratch copy of /repo, removed afterwards)",
     }
     json.dump(meta, open(os.path.join(dst, "meta.json"), "w"), indent=1)
-    print(f"kept {name}: {meta['detection']}")
+    print(f"kept {name}")
